@@ -326,11 +326,40 @@ pub fn run(args: &Args, rep: &mut Report) {
                 continue;
             }
         }
+        // ---------------- read side again, as a random walk: seeks, short / empty / boundary reads and extents on the
+        // foreign (fragmented, backwards) chains, every result judged against the ground truth
+        {
+            let mut scfg = SessCfg::all(unicode_build());
+            scfg.props = ["C01", "C02", "C04"].into_iter().collect();
+            scfg.tolerate_baseline_diags = true;
+            scfg.nhandles = 3;
+            scfg.lib_walk = false;
+            scfg.short_dev = if rng.chance(1, 4) { Some(rng.next_u64()) } else { None };
+            let mut g = GenCfg::default();
+            g.read_only = true;
+            g.max_ops = 20 + rng.usize_below(30);
+            g.invalid_names = false;
+            let mut src = RandomSource::new(seed, 0xC08B, id, g);
+            let o = run_session(&scfg, &img, truth.vol_bytes, fnv_of(&[&spec.class(), "walk"]), &mut src);
+            rep.evaluations += o.counters.api_calls;
+            rep.count("read_walk_calls", o.counters.api_calls);
+            for d in &o.distinct {
+                rep.distinct.insert(*d);
+            }
+            if let Some(v) = o.violation {
+                let hist: Vec<String> = o.history.iter().rev().take(12).rev().map(|x| x.show()).collect();
+                let d = format!("[read walk on {}] {}", spec.label(), v.detail);
+                let mut rj = rj(&d);
+                rj.put("history", J::arr_of_str(hist));
+                rep.viol("C08", &format!("C08|walk|{}", v.sig), &v.rule, &d, rj);
+            }
+        }
         // ---------------- write side: a few mutations under all session monitors
         let mut scfg = SessCfg::all(unicode_build());
-        scfg.props = ["C01", "C03", "C05", "C10", "C11", "C18"].into_iter().collect();
+        scfg.props = ["C01", "C02", "C03", "C04", "C05", "C10", "C11", "C18"].into_iter().collect();
         scfg.tolerate_baseline_diags = true;
         scfg.nhandles = 3;
+        scfg.short_dev = if rng.chance(1, 4) { Some(rng.next_u64()) } else { None };
         let mut g = GenCfg::default();
         g.max_ops = 3 + rng.usize_below(12);
         g.w_remount = 4;
